@@ -131,6 +131,9 @@ pub fn read_chunks(dir: &Path, roller: &RollSpec, active: &Path) -> Result<(Vec<
     let mut archives = 0;
     for off in (0..window_count(roller)).rev() {
         let p = archive_path(dir, roller, off).unwrap();
+        if crate::fsx::is_full_device_link(&p) {
+            continue;
+        }
         if let Ok(raw) = std::fs::read(&p) {
             let name = p.to_string_lossy().to_string();
             let dec = decoded(&name, &raw).map_err(|e| Failure { sig: "C05:archive-undecodable".into(), msg: format!("{} cannot be decompressed: {}", name, e) })?;
